@@ -19,6 +19,8 @@ var varPool = []string{"x", "y", "0", "1", "var_1", "f", "who", "query", "read",
 var strTxtPool = []string{"", "a", "file1", "hello world", "read", "/a/b.txt", "x;y", "tab\there", "ünï", "check if", "$x", "1 < 2", "50%off", "%s%d%v", "100%", "(a)", "[1, 2]", "{x}", "<-", "!", "#1025", "allow if true", "a,b", "a.length()", "2021-01-01T00:00:00Z", "true", "-1", "a||b", "// c", "/* c */"}
 var strPrintable = []string{"", "a", "file1", "hello world", "read", "/a/b.txt", "x;y", "check if", "$x", "1 < 2", "50%off", "%s%d%v", "100%", "(a)", "[1, 2]", "{x}", "<-", "!", "#1025", "allow if true", "a,b", "a.length()", "2021-01-01T00:00:00Z", "true", "-1", "a||b", "// c", "/* c */"}
 
+var boundarySizes = []int{15, 16, 17, 31, 32, 33, 63, 64, 65, 127, 128, 129, 255, 256, 257, 1000}
+
 func (g *txtGen) ws() string {
 	switch g.rng.Intn(6) {
 	case 0:
@@ -79,6 +81,10 @@ func (g *txtGen) term(allowVar, allowSet bool) (string, STerm) {
 			return t.Format(time.RFC3339), aDate(uint64(secs))
 		case 4:
 			b := r.Bytes(r.Intn(4))
+			if r.Chance(15) {
+				// sizes around the powers of two a fixed buffer might have: nothing in the grammar bounds a byte literal
+				b = r.Bytes(boundarySizes[r.Intn(len(boundarySizes))])
+			}
 			h := fmt.Sprintf("%x", b)
 			if !g.printable && r.Bool() {
 				h = strings.ToUpper(h)
